@@ -24,7 +24,10 @@ def load(path: pathlib.Path) -> StoredState | None:
     try:
         with gzip.open(str(path), "rb") as fp:
             return StoredState.model_validate_json(fp.read())
-    except (OSError, ValueError, EOFError, zlib.error) as exc:
+    except (OSError, ValueError, EOFError, zlib.error, TypeError) as exc:
+        # TypeError: pydantic calls the custom __init__ of a model (TlTrack)
+        # with the keys found in the file; a missing key is a TypeError there,
+        # not a ValidationError.
         logger.warning(f"Loading JSON failed: {exc}")
         return None
 
